@@ -22,7 +22,8 @@ MarkerOnlyAfterAckAt(x) == \A w \in Weeks(x) : x.uploaded[w].st = "file" => \E i
 UntouchedAt(x) == x.untouched
 (* C07: crash-free quiescence => exactly one complete local report per week over exactly that week's files, files gone *)
 OneLocalReportAt(x) == (x.quiet /\ x.nokill) =>
-     \A w \in Weeks(x) : /\ x.localr[w].st = "file" /\ x.localr[w].complete
+     \A w \in Weeks(x) : (x.early[w] # <<>>) =>
+                         /\ x.localr[w].st = "file" /\ x.localr[w].complete
                          /\ ToSet(x.early[w]) \subseteq ToSet(x.localr[w].files) /\ ToSet(x.localr[w].files) \subseteq ToSet(x.filesof[w])
                          /\ ToSet(x.early[w]) \cap ToSet(x.count) = {}
 (* C07: a count file disappears only when a report for its week exists *)
